@@ -187,13 +187,35 @@ pub fn expr_tokens(e: &E, mode: Paren, out: &mut Vec<Tok>) { emit(e, mode, 0, fa
 
 /// `min_prec`: the weakest binding strength allowed without parentheses at this position.
 /// `strict`: even equal strength needs parentheses (right operand of a left-associative operator).
+thread_local! {
+    /// when non-zero, redundant parentheses are put around pseudo-randomly chosen sub-expressions (C13: "a
+    /// parenthesised sub-expression is always accepted where an operand is")
+    pub static EXTRA_PARENS: std::cell::Cell<u64> = std::cell::Cell::new(0);
+}
+
+fn extra_paren() -> bool {
+    EXTRA_PARENS.with(|c| {
+        let v = c.get();
+        if v == 0 { return false; }
+        let mut x = v;
+        let r = crate::rng::splitmix(&mut x);
+        c.set(if x == 0 { 1 } else { x });
+        r % 4 == 0
+    })
+}
+
 fn emit(e: &E, mode: Paren, min_prec: u8, strict: bool, out: &mut Vec<Tok>) {
     let p = ref_prec(e);
     let compound = p < 9;
-    let need = match mode {
+    let mut need = match mode {
         Paren::Full => compound,
         Paren::Minimal => compound && (p < min_prec || (strict && p == min_prec)),
     };
+    // `x::int[1]` would read as a cast to an array type: the cast operand of a subscript is always parenthesised
+    let array_of_subscript = SUBSCRIPT_OF_CAST.with(|c| c.replace(false));
+    if mode == Paren::Minimal && array_of_subscript && matches!(e, E::Cast(..)) { need = true; }
+    let extra = !matches!(e, E::Star) && extra_paren();
+    if extra { pu(out, "("); }
     if need { pu(out, "("); }
     let sub = |x: &E, mp: u8, st: bool, out: &mut Vec<Tok>| emit(x, mode, mp, st, out);
     match e {
@@ -235,7 +257,11 @@ fn emit(e: &E, mode: Paren, min_prec: u8, strict: bool, out: &mut Vec<Tok>) {
             for (i, v) in a.iter().enumerate() { if i > 0 { pu(out, ","); } sub(v, 0, false, out); }
             pu(out, "]");
         }
-        E::Index(a, i) => { sub(a, 8, false, out); pu(out, "["); sub(i, 0, false, out); pu(out, "]"); }
+        E::Index(a, i) => {
+            SUBSCRIPT_OF_CAST.with(|c| c.set(true));
+            sub(a, 8, false, out);
+            pu(out, "["); sub(i, 0, false, out); pu(out, "]");
+        }
         E::Cast(x, t) => { sub(x, 8, false, out); op(out, "::"); type_tokens(t, out); }
         E::Case(cs, el) => {
             kw(out, "CASE");
@@ -244,7 +270,10 @@ fn emit(e: &E, mode: Paren, min_prec: u8, strict: bool, out: &mut Vec<Tok>) {
         }
     }
     if need { pu(out, ")"); }
+    if extra { pu(out, ")"); }
 }
+
+thread_local! { static SUBSCRIPT_OF_CAST: std::cell::Cell<bool> = std::cell::Cell::new(false); }
 
 pub fn type_tokens(t: &Ty, out: &mut Vec<Tok>) {
     match t {
